@@ -32,7 +32,7 @@ package sql
 //@   ensures result1 == nil ==> result0 != nil
 
 //@ func (*ATSourceManager).BranchRollback
-//@   prop C01 C09 C10
+//@   prop C01 C09 C10 C03 C11
 //@   modifies ghost.all, heap.all
 //@   requires a != nil
 //@   let known := haskey(syncmap(a, "resourceCache"), box(branchResource.ResourceId, string))
@@ -95,11 +95,11 @@ package sql
 //@   ensures true
 
 //@ func getStatus
-//@   prop C02
+//@   prop C02 C03 C16
 //@   ensures post: (success ==> result == branch.BranchStatusPhaseoneDone) && (!success ==> result == branch.BranchStatusPhaseoneFailed)
 
 //@ func (*Tx).register
-//@   prop C02 C03
+//@   prop C02 C03 C16
 //@   requires tx != nil && ctx != nil && ctx.RoundImages != nil
 //@   let needs := ctx.TransactionMode == types.ATMode && (len(ctx.RoundImages.before) != 0 || len(ctx.RoundImages.after) != 0) && len(ctx.LockKeys) != 0
 //@   let xa := ctx.TransactionMode == types.XAMode
@@ -115,7 +115,7 @@ package sql
 //@   at call BranchRegister#1: assert every-lock-key-is-sent: needs && haskey(ctx.LockKeys, w) ==> contains(arg_param.LockKeys, w + ";")
 
 //@ func (*Tx).report
-//@   prop C02
+//@   prop C02 C03 C16
 //@   requires tx != nil && tx.tranCtx != nil
 //@   modifies ghost.reports, ghost.report_acked, ghost.reported_failed, ghost.reported_done, ghost.ctx_done
 //@   ensures unregistered-silent: tx.tranCtx.BranchID == 0 ==> result == nil && ghost.reports == old(ghost.reports)
@@ -152,7 +152,7 @@ package sql
 //@   ensures connection-leaves-the-transaction: tx.tx.conn.autoCommit
 
 //@ func (*ATTx).commitOnAT
-//@   prop C02 C10
+//@   prop C02 C10 C01
 //@   requires forall(i, 0, len(txHooks), txHooks[i] != nil)
 //@   requires tx != nil && tx.tx != nil && tx.tx.tranCtx != nil && tx.tx.tranCtx.RoundImages != nil && tx.tx.conn != nil && tx.tx.target != nil
 //@   requires ghost.dtx == 1 && ghost.registers == 0 && ghost.flushes == 0 && ghost.reports == 0 && !ghost.reported_failed && !ghost.reported_done && !ghost.report_acked && tx.tx.tranCtx.BranchID == 0
@@ -177,7 +177,7 @@ package sql
 //@   ensures_on_panic ghost.f_calls == old(ghost.f_calls) + 1 && !ghost.f_ok
 
 //@ func (*ATConn).createNewTxOnExecIfNeed
-//@   prop C02 C16
+//@   prop C02 C16 C01
 //@   let cv16 := ctxvalue(ctx, tm.seataContextVariable)
 //@   let global16 := cv16 != nil && cv16.(*tm.ContextVariable).Xid != ""
 //@   ensures C16/plain-outside-a-global-tx: !global16 && called("callback:f#1") && ghost.f_ok ==> ghost.f_calls == 1 && result1 == nil && result0 == callres("callback:f#1", 0) && ghost.dtx == old(ghost.dtx) && ghost.registers == 0 && ghost.reports == 0
@@ -198,7 +198,7 @@ package sql
 //@   ensures_on_panic false
 
 //@ func (*ATConn).BeginTx
-//@   prop C02
+//@   prop C02 C01 C16
 //@   modifies ghost.dtx, c.Conn.txCtx, c.Conn.autoCommit
 //@   requires c != nil && c.Conn != nil && c.Conn.res != nil && c.Conn.targetConn != nil && ctx != nil
 //@   let cv := ctxvalue(ctx, tm.seataContextVariable)
@@ -261,7 +261,7 @@ package sql
 // The base Tx is shared by AT (target = the driver's transaction) and XA (no target: XA START/END
 // replace BEGIN/COMMIT); its Rollback must be callable in both.
 //@ func (*Tx).Rollback
-//@   prop C17 C02 C16
+//@   prop C17 C02 C16 C03
 //@   ensures C16/outcome-is-the-target-drivers: tx.target != nil ==> called("(driver.Tx).Rollback#1") && !called("(driver.Tx).Rollback#2") && result == callres("(driver.Tx).Rollback#1", 0)
 //@   requires tx != nil && forall(i, 0, len(txHooks), txHooks[i] != nil)
 //@   modifies ghost.dtx
@@ -276,22 +276,22 @@ package sql
 //@   trusted
 //@   ensures true
 //@ func (*XAConn).ShouldBeHeld
-//@   prop C17
+//@   prop C17 C16
 //@   requires c != nil && c.Conn != nil && c.Conn.res != nil
 //@   ensures held-for-known-databases: result == (c.Conn.res.shouldBeHeld || c.Conn.res.dbType != types.DBTypeUnknown)
 //@ func (*XAConn).releaseIfNecessary
-//@   prop C17
+//@   prop C17 C16
 //@   requires c != nil && c.Conn != nil && c.Conn.res != nil && c.xaBranchXid != nil
 //@   modifies c.isConnKept, syncmap(c.Conn.res, "keeper")
 //@   ensures released: (c.Conn.res.shouldBeHeld || c.Conn.res.dbType != types.DBTypeUnknown) ==> !c.isConnKept
 //@   ensures untouched-otherwise: !(c.Conn.res.shouldBeHeld || c.Conn.res.dbType != types.DBTypeUnknown) ==> c.isConnKept == old(c.isConnKept)
 //@ func (*XAConn).keepIfNecessary
-//@   prop C17
+//@   prop C17 C16
 //@   requires c != nil && c.Conn != nil && c.Conn.res != nil && c.xaBranchXid != nil
 //@   modifies c.isConnKept, syncmap(c.Conn.res, "keeper")
 //@   ensures kept-only-for-held-resources: !(c.Conn.res.shouldBeHeld || c.Conn.res.dbType != types.DBTypeUnknown) ==> c.isConnKept == old(c.isConnKept)
 //@ func (*XAConn).termination
-//@   prop C17
+//@   prop C17 C16
 //@   requires c != nil && c.Conn != nil && c.Conn.res != nil && c.Conn.txCtx != nil && c.xaBranchXid != nil
 //@   modifies c.isConnKept, syncmap(c.Conn.res, "keeper")
 //@   ensures true
@@ -303,7 +303,7 @@ package sql
 //@ iface (driver.Conn).Close
 //@   ensures true
 //@ func (*XAConn).Close
-//@   prop C17
+//@   prop C17 C16
 //@   requires c != nil && c.Conn != nil && c.Conn.res != nil && c.Conn.targetConn != nil
 //@   modifies heap.all, ghost.all
 //@   let kept := c.isConnKept && (c.Conn.res.shouldBeHeld || c.Conn.res.dbType != types.DBTypeUnknown)
@@ -312,13 +312,13 @@ package sql
 //@   may_panic
 
 //@ func (*XAConn).cleanXABranchContext
-//@   prop C17
+//@   prop C17 C16
 //@   requires c != nil
 //@   modifies c.xaActive, c.xaBranchXid, c.branchRegisterTime, c.prepareTime
 //@   ensures deactivated: !c.xaActive && (c.isConnKept ==> c.xaBranchXid == old(c.xaBranchXid))
 
 //@ func (*XAConn).start
-//@   prop C17
+//@   prop C17 C16
 //@   requires c != nil && c.Conn != nil && c.Conn.txCtx != nil && c.Conn.res != nil && c.Conn.targetConn != nil && c.xaBranchXid != nil
 //@   requires ghost.xa_state == 0 && !ghost.xa_illegal && !ghost.xa_mismatch
 //@   let id := c.xaBranchXid.xid + "-" + ufs("fmtuint", c.xaBranchXid.branchId)
@@ -329,7 +329,7 @@ package sql
 //@   ensures never-beyond-active: ghost.xa_state != 3 && ghost.xa_state != 4
 
 //@ func (*XAConn).Commit
-//@   prop C17
+//@   prop C17 C16
 //@   requires c != nil && c.Conn != nil && c.Conn.txCtx != nil && c.Conn.res != nil
 //@   let id := c.xaBranchXid.xid + "-" + ufs("fmtuint", c.xaBranchXid.branchId)
 //@   let live := !c.Conn.autoCommit && c.xaActive && c.xaBranchXid != nil
@@ -350,7 +350,7 @@ package sql
 //@   ensures success-keeps-branch: live && result == nil ==> c.xaActive && c.xaBranchXid == id0
 
 //@ func (*XAConn).Rollback
-//@   prop C17
+//@   prop C17 C16
 //@   requires c != nil && c.Conn != nil && c.Conn.txCtx != nil && c.Conn.res != nil
 //@   let id := c.xaBranchXid.xid + "-" + ufs("fmtuint", c.xaBranchXid.branchId)
 //@   let live := !c.Conn.autoCommit && c.xaActive && c.xaBranchXid != nil && !c.rollBacked
@@ -388,7 +388,7 @@ package sql
 //@   ensures never-beyond-active: ghost.xa_state != 3 && ghost.xa_state != 4
 
 //@ func (*XAConn).createNewTxOnExecIfNeed
-//@   prop C17
+//@   prop C17 C16
 //@   requires c != nil && c.Conn != nil && c.Conn.txCtx != nil && c.Conn.res != nil && c.Conn.targetConn != nil && ctx != nil
 //@   let cv := ctxvalue(ctx, tm.seataContextVariable)
 //@   requires cv != nil ==> isT(cv, *tm.ContextVariable) && cv.(*tm.ContextVariable) != nil
@@ -465,7 +465,7 @@ package sql
 // the accumulation buffer - the batch must be a private copy of everything accumulated (not a slice
 // that shares the buffer's backing array), and the buffer is emptied only because of that
 //@ func (*AsyncWorker).doBranchCommit
-//@   prop C11
+//@   prop C11 C10
 //@   local copyPhaseCtxs []phaseTwoContext
 //@   requires aw != nil && phaseCtxs != nil && aw.commitWorker != nil && aw.commitWorker.ctx != nil
 //@   modifies heap.all, ghost.all
@@ -477,7 +477,7 @@ package sql
 //@   may_panic
 
 //@ func (*AsyncWorker).dealWithGroupedContexts
-//@   prop C11
+//@   prop C11 C10
 //@   requires aw != nil && aw.resourceMgr != nil && aw.rePutBackToQueue != nil && ghost.bd_calls == 0 && ghost.bd_fails == 0 && ghost.conns_out == 0
 //@   let n := len(phaseCtxs)
 //@   let q0 := chanlen(aw.commitQueue)
@@ -496,7 +496,7 @@ package sql
 //@ iface (prometheus.Gauge).Add
 //@   ensures true
 //@ func (*AsyncWorker).BranchCommit
-//@   prop C11
+//@   prop C11 C10
 //@   requires aw != nil && aw.branchCommitTotal != nil && aw.receiveChanLength != nil && ctx != nil
 //@   let q0 := chanlen(aw.commitQueue)
 //@   modifies ghost.all
@@ -505,7 +505,7 @@ package sql
 //@   ensures queued-at-most-once: chanlen(aw.commitQueue) <= q0 + 1
 
 //@ func (*ATSourceManager).BranchCommit
-//@   prop C11
+//@   prop C11 C01 C03 C09 C10
 //@   requires a != nil && a.worker != nil && a.worker.branchCommitTotal != nil && a.worker.receiveChanLength != nil && ctx != nil
 //@   let q0 := chanlen(a.worker.commitQueue)
 //@   modifies ghost.all
@@ -535,7 +535,7 @@ package sql
 //@   ensures ghost.target_calls == old(ghost.target_calls) + 1
 
 //@ func (*Conn).ExecContext
-//@   prop C16
+//@   prop C16 C02
 //@   requires c != nil && c.targetConn != nil && implements(c.targetConn, driver.ExecerContext) && ghost.target_calls == 0
 //@   modifies ghost.target_calls
 //@   ensures reaches-the-target-once: ghost.target_calls == 1 && called("ExecContext#1")
@@ -545,7 +545,7 @@ package sql
 //@   may_panic
 
 //@ func (*Conn).QueryContext
-//@   prop C16
+//@   prop C16 C02
 //@   requires c != nil && c.targetConn != nil && implements(c.targetConn, driver.QueryerContext) && ghost.target_calls == 0
 //@   modifies ghost.target_calls
 //@   ensures reaches-the-target-once: ghost.target_calls == 1 && called("QueryContext#1")
@@ -559,7 +559,7 @@ package sql
 //@ iface (driver.SessionResetter).ResetSession
 //@   ensures true
 //@ func (*Conn).ResetSession
-//@   prop C16
+//@   prop C16 C02
 //@   requires c != nil && c.targetConn != nil
 //@   modifies c.autoCommit, c.txCtx
 //@   ensures unsupported-is-skipped: !implements(c.targetConn, driver.SessionResetter) ==> result == driver.ErrSkip
@@ -641,7 +641,7 @@ package sql
 //@   may_panic
 
 //@ func (*ATConn).ExecContext$2
-//@   prop C16
+//@   prop C16 C01 C02
 //@   requires c != nil && c.Conn != nil && c.Conn.txCtx != nil && c.Conn.res != nil && c.Conn.targetConn != nil && ctx != nil
 //@   modifies heap.all, ghost.all
 //@   ensures builder-error-surfaces: called("BuildExecutor#1") && callres("BuildExecutor#1", 1) != nil ==> result1 == callres("BuildExecutor#1", 1) && !called("ExecWithNamedValue#1")
@@ -651,7 +651,7 @@ package sql
 //@   may_panic
 
 //@ func (*ATConn).QueryContext$2
-//@   prop C16
+//@   prop C16 C01 C02
 //@   requires c != nil && c.Conn != nil && c.Conn.txCtx != nil && c.Conn.res != nil && c.Conn.targetConn != nil && ctx != nil
 //@   modifies heap.all, ghost.all
 //@   ensures builder-error-surfaces: called("BuildExecutor#1") && callres("BuildExecutor#1", 1) != nil ==> result1 == callres("BuildExecutor#1", 1) && !called("ExecWithNamedValue#1")
